@@ -9,7 +9,7 @@ from common import Ctx
 ID = "C01"
 PROPS = ["props/C01.v"]
 EXTRACTS = ["Solver"]
-THEOREMS = ['C01_one_version_per_project_all_compiles', 'C01_result_graph_well_formed_all_compiles', 'C01_answer_is_offered_and_satisfies', 'C01_merged_request_is_at_least_as_strong', 'C01_solve_step_sound_partial', 'C01_result_checker_sound', 'C01_extras_of_one_edge_are_combined', 'C01_pins_of_all_constraint_files_merged', 'C01_contradictory_pins_fail', 'C01_excluding_edge_discards_choice', 'C01_node_objects_keep_their_project']
+THEOREMS = ['C01_every_applicable_requirement_is_satisfied_all_compiles', 'C01_failure_graph_is_sound_too', 'C01_refuted_stored_reasons_and_project_inputs', 'C01_all_compiles_theorem_is_not_vacuous', 'C01_one_version_per_project_all_compiles', 'C01_result_graph_well_formed_all_compiles', 'C01_answer_is_offered_and_satisfies', 'C01_merged_request_is_at_least_as_strong', 'C01_solve_step_sound_partial', 'C01_result_checker_sound', 'C01_extras_of_one_edge_are_combined', 'C01_pins_of_all_constraint_files_merged', 'C01_contradictory_pins_fail', 'C01_excluding_edge_discards_choice', 'C01_node_objects_keep_their_project']
 MODES = ['calm', 'calm', 'conflict', 'extras', 'dense', 'cascade', 'srcextras', 'projects']
 RULE = ("universes (2-6 projects x 1-4 versions incl. pre/post/dev releases, requirements with the 7 operators, "
         "wildcards, extras, extra- and environment-markers, cycles, unreadable files, misnamed files), 1-3 input files, "
